@@ -49,7 +49,7 @@ var c07Items = []string{
 	"raw-bytes", "non-json", "json-scalar", "wrong-kind-request", "wrong-kind-notification", "unknown-id-response",
 	"id-object", "id-float", "id-string-for-int", "id-null", "no-jsonrpc", "result-and-error", "empty-object",
 	"blank-lines", "comment", "unknown-event-type", "giant-64k-minus", "giant-64k-plus", "giant-1m", "second-endpoint",
-	"truncated-json", "nested-deep", "bom", "crlf",
+	"truncated-json", "nested-deep", "bom", "crlf", "answer-x3",
 }
 
 func c07JSON(item string) string {
@@ -219,7 +219,14 @@ func runC07(c *Ctx) {
 					fl := w.(http.Flusher)
 					emit := func() {
 						for _, it := range items {
-							io.WriteString(w, c07SSE(it))
+							if it == "answer-x3" {
+								// the answer of this very request, three times back to back
+								for i := 0; i < 3; i++ {
+									fmt.Fprintf(w, "id: d%d\ndata: %s\n\n", i, ans)
+								}
+							} else {
+								io.WriteString(w, c07SSE(it))
+							}
 							fl.Flush()
 						}
 					}
@@ -316,7 +323,14 @@ func runC07(c *Ctx) {
 			}
 			emit := func() {
 				for _, it := range items {
-					io.WriteString(sw, c07SSE(it))
+					if it == "answer-x3" {
+						a := mustJSON(answerFor(id, method, params))
+						for i := 0; i < 3; i++ {
+							fmt.Fprintf(sw, "event: message\ndata: %s\n\n", a)
+						}
+					} else {
+						io.WriteString(sw, c07SSE(it))
+					}
 					sw.(http.Flusher).Flush()
 				}
 			}
@@ -361,9 +375,14 @@ func runC07(c *Ctx) {
 		out := fromSrv.Writer()
 		s.Go("scripted-server", func() {
 			rd := bufio.NewReaderSize(toSrv.Reader(), 1<<21)
+			var curAnswer []byte
 			emit := func() {
 				for _, it := range items {
-					if l := c07Line(it); l != "" {
+					if it == "answer-x3" {
+						for i := 0; i < 3; i++ {
+							out.Write(append(append([]byte(nil), curAnswer...), '\n'))
+						}
+					} else if l := c07Line(it); l != "" {
 						io.WriteString(out, l)
 					}
 				}
@@ -384,6 +403,7 @@ func runC07(c *Ctx) {
 					continue
 				}
 				isAffected := strings.Contains(string(line), affected)
+				curAnswer = mustJSON(answerFor(id, method, params))
 				if isAffected && position == "before" {
 					emit()
 				}
